@@ -179,6 +179,7 @@ package zipslicer
 //@   before call (*binpatch.PatchSet).Add(_, off, sz, blob): assert @directory_tail_replaced_as_a_whole off == m.indir && sz == m.insize - m.indir
 //@
 //@ func (*File).OpenAndTeeRaw
+//@   standalone
 //@   property C17 C03
 //@   requires fileOK(f)
 //@   ghost hdrOK bool = false
@@ -187,12 +188,16 @@ package zipslicer
 //@        off == f.Offset + 30 + f.lfh.FilenameLen + f.lfh.ExtraLen && n == f.CompressedSize
 //@
 //@ func (*File).Dump
+//@   standalone
 //@   property C17 C03
 //@   requires fileOK(f)
+//@   ensures @file_invariant_kept fileOK(f)
+//@   modifies f.lfh, f.lfhName, f.lfhExtra, f.ddb, f.CRC32, sink w
 //@   before call io.NewSectionReader(src, off, n): assert @member_data_starts_behind_the_local_header_name_and_extra src == f.r && \
 //@        off == f.Offset + 30 + f.lfh.FilenameLen + f.lfh.ExtraLen && n == f.CompressedSize
 //@
 //@ func (*File).GetLocalHeader
+//@   standalone
 //@   property C17
 //@   requires fileOK(f)
 //@   ensures @file_invariant_kept fileOK(f)
@@ -200,6 +205,7 @@ package zipslicer
 //@   modifies f.lfh, f.lfhName, f.lfhExtra
 //@
 //@ func (*File).GetDataDescriptor
+//@   standalone
 //@   property C17
 //@   requires fileOK(f)
 //@   ensures @file_invariant_kept fileOK(f)
